@@ -341,7 +341,7 @@ def pyversion(timeout_ms=None):
 MEMO_WHITELIST = {
     # lazy cache of MarkerExpression: only read through `specifier`, which fills it from _get_specifier() (a function of the compared
     # fields); from_specifier installs it with the specifier the atom was rendered from (C11 obligation)
-    "dep_logic.markers.single:_merge_single_markers": {"MarkerExpression._specifier"},
+    "dep_logic.markers.single:_merge_single_markers": {"MarkerExpression._specifier@specifier"},
 }
 
 
